@@ -218,7 +218,7 @@ def wbytes(doc):
 
 def make_doc(kind, seed, nops):
     try:
-        doc, gen = c02.base_doc(kind, seed, dict(f64=True))     # constructed sources may hold numpy's default float64 arrays
+        doc, gen = c02.base_doc(kind, seed, dict(f64=True, rig=True))     # constructed sources may hold numpy's default float64 arrays
     except Exception as e:          # a base document that does not load is not a history of saves
         core.note_skip('c03:base', e)
         return None, []
